@@ -23,11 +23,11 @@ import signal
 import subprocess
 import tempfile
 
-from vlib import qZ, qlist, qbool
+from vlib import qZ, qlist, qbool, qbytes
 
 GEN_DEPS = ("EcFormulas.v", "gen_ec_formulas", "Curves.v", "gen_curves")
-MODEL_TARGETS = ["Model/Ec.vo"]
-IMPORTS = "From Bec2 Require Import Base.Modp Gen.EcFormulas Gen.Curves Model.Ec."
+MODEL_TARGETS = ["Model/Ec.vo", "Model/P256Plugin.vo"]
+IMPORTS = "From Bec2 Require Import Base.Modp Gen.EcFormulas Gen.Curves Model.Ec Model.P256Plugin."
 
 PREAMBLE = """
 Definition jeqb (A B : Z * Z * Z) : bool :=
@@ -631,7 +631,7 @@ def _correspondence_cases(ctx):
     # quick: both paths on the two smallest curves, the NAF path on NIST256p (the curve bec2format uses);
     # thorough: both paths on the three smallest and on NIST256p, one path on each of the others
     if ctx.quick():
-        plan = [(c, (True, False)) for c in by_bits[:2]] + [(curves.NIST256p, (False,))]
+        plan = [(c, (True, False)) for c in by_bits[:2]]     # NIST256p: through the plug-in model below
     else:
         plan = [(c, (True, False)) for c in by_bits[:3] + [curves.NIST256p]] + \
                [(c, (r.random() < 0.5,)) for c in cs if c not in by_bits[:3] and c is not curves.NIST256p]
@@ -660,6 +660,48 @@ def _correspondence_cases(ctx):
             ("mul_add-big", c.name, k1, k2)))
         ctx.case(("mul_add-big", c.name, k1, k2))
 
+    # (6) the BEC2 ECC plug-in (register_crypto_plugin, NIST256p) vs Model/P256Plugin.v
+    import register_crypto_plugin as rcp
+    c = curves.NIST256p
+    n, p = int(c.order), int(c.curve.p())
+
+    def plug(d):
+        return rcp.PrivateEccKeyProxy(keys.SigningKey.from_secret_exponent(d, c))
+    for j in range(1 if ctx.quick() else 3):
+        d, e2 = r.randrange(1, n), r.randrange(1, n)
+        if j == 1:
+            d = r.choice([1, 2, n - 1])
+        raw_d = plug(d).public_key.to_raw_bin_fmt()
+        raw_e = plug(e2).public_key.to_raw_bin_fmt()
+        sec = plug(d).compute_dh_secret(rcp.PublicEccKeyProxy.create_from_raw_fmt(raw_e))
+        db = d.to_bytes(32, "big")
+        heavy.append(("(bytes_eqb (p256_pub_of %s) %s)" % (qbytes(db), qbytes(raw_d)), ("p256_pub_of", d)))
+        heavy.append(("(bytes_eqb (p256_ecdh %s %s) %s)" % (qbytes(db), qbytes(raw_e), qbytes(sec)), ("p256_ecdh", d, e2)))
+        ctx.case(("plugin", d, e2))
+        ctx.dist["model:p256-plugin"] += 2
+    G = (int(c.generator.x()), int(c.generator.y()))
+    Q = a_mul(r.randrange(1, n), G, p, int(c.curve.a()))
+    raws = [Q[0].to_bytes(32, "big") + Q[1].to_bytes(32, "big"),
+            Q[0].to_bytes(32, "big") + ((Q[1] + 1) % p).to_bytes(32, "big"),
+            ((Q[0] + 1) % p).to_bytes(32, "big") + Q[1].to_bytes(32, "big"),
+            bytes(64), bytes(63), bytes(65),
+            (p).to_bytes(32, "big") + G[1].to_bytes(32, "big"),
+            bytes(r.randrange(256) for _ in range(64)),
+            b"\xff" * 64]
+    if Q[0] + p < 2 ** 256:
+        raws.append((Q[0] + p).to_bytes(32, "big") + Q[1].to_bytes(32, "big"))
+    og = curves.SECP256k1.generator
+    raws.append(int(og.x()).to_bytes(32, "big") + int(og.y()).to_bytes(32, "big"))
+    for raw in raws:
+        try:
+            kick()
+            rcp.PublicEccKeyProxy.create_from_raw_fmt(raw)
+            ok = True
+        except ValueError:
+            ok = False
+        add("(Bool.eqb (p256_valid_pub %s) %s)" % (qbytes(raw), qbool(ok)), ("p256_valid_pub", raw.hex(), ok))
+        ctx.case(("plugin-valid", raw))
+        ctx.dist["model:p256-valid:%s" % ok] += 1
     return exprs, meta, heavy
 
 
